@@ -92,7 +92,18 @@ def tag_switches(f):
             continue
         rd = [a for a in o if a[0] in ("call", "outparam") and READ.search(a[1])]
         if rd:
-            out.append((sb, st, rd[0]))
+            # totality may be delegated to a dominating enforced range test on the same value
+            root = rules.root_local(f, st["d"])
+            delegated = False
+            for comp in rules.comparisons(f):
+                if comp["kind"] != "bin" or not f.dominates(comp["bb"], sb):
+                    continue
+                if root is not None and (rules.root_local(f, comp["a"]) == root or rules.root_local(f, comp["b"]) == root):
+                    rel, _ = rules.cmp_rejects(f, comp)
+                    if rel is not None:
+                        delegated = True
+            if not delegated:
+                out.append((sb, st, rd[0]))
     return out
 
 
